@@ -1126,9 +1126,10 @@ func (h *harness) enumerate(section string, c *runCfg, maxLen, maxCollects int) 
 // jobs
 
 func limitsFor(thorough bool) []limitT {
-	l := []limitT{{"", 0}, {"1", 1}, {"2", 2}, {"3", 3}, {"4", 4}}
+	// "-1" and "abc": a value that is not a positive integer means no limit (model L = 0), as the unset variable does
+	l := []limitT{{"", 0}, {"1", 1}, {"2", 2}, {"3", 3}, {"4", 4}, {"-1", 0}, {"abc", 0}}
 	if thorough {
-		l = append(l, limitT{"5", 5}, limitT{"0", 0})
+		l = append(l, limitT{"5", 5}, limitT{"0", 0}, limitT{"1000", 0}, limitT{"2.5", 0})
 	}
 	return l
 }
